@@ -57,8 +57,10 @@ def nontrivial(request, impl):
     return True
 
 
+import cli  # noqa: E402  (CLI-level runners)
+
 PROPS = {}
-HOOK_COMMITS = []
+HOOK_COMMITS = ["fb76d1e verif hook: call counters behind --cfg stylua_verif", "schedule points in src/cli/main.rs (two commits: `verif hook: named schedule points...`, `verif hook: schedule point in front of the walker's error report`)"]
 
 PROPS["C04"] = {
     "lean_modules": ["StyluaModel.Props.C04"],
@@ -250,4 +252,19 @@ PROPS["C07"] = {
     "rule": "ring 2 (`cost`): format_function_call invocations for nested method chains / nested calls of depth 0..11 (hook counter) <= Model/Cost.lean. distinct_nontrivial = depths >= 2. ring 3: 367 corpus files x 6 seeded variants (truncate, splice, junk token, CRLF+tabs, unchanged) x 8 extreme configurations (width 1, 2, 80, usize::MAX; indent 1, 16) x 6 range shapes (empty, inverted, out of bounds, open-ended) x verify on/off: no panic (signature = panic site), Ok iff the input parses, time budget; deterministic superlinearity test (formatter entries per input byte); plus every case of the closed corpus and slot sets. " + PIPE_RULE,
     "trusted_base": ["panics inside the full_moon parser are grouped into one known finding (its code cannot change with /repo)"],
     "assumptions": ["nesting depth of function bodies is capped at 6 in the harness: deeper nesting overflows a 2 MB stack in unoptimised builds, an artefact of the build profile"],
+}
+
+PROPS["C19"] = {
+    "lean_modules": ["StyluaModel.Props.C19"],
+    "theorem_prefix": "C19_",
+    "required_theorems": ["C19_ops", "C19_exit_any_schedule"],
+    "py": [cli.c19],
+    "needs_cli": True,
+    "level": "proof",
+    "level_text": "Proof over the atomic operations that the translator re-extracts from src/cli/main.rs on every run: the diff handler is one fetch_max(1), the logger one store(2); for every number of diff and error reports and every order in which they take effect the final status is 2 if any error, else 1 if any diff, else 0 (induction over the permutation). The racy load/compare/store of the pinned code is shown to violate this by computation, and was replayed on the binary through the schedule hook before it was repaired.",
+    "level_note": "Trusted: Lean kernel; the translator's extraction of EXIT_CODE operations (regex over main.rs); the mapping of Rust SeqCst atomics to atomic model steps. File contents are checked by the thread sweep only (workers write disjoint files).",
+    "technique": "translated atomic-operation list + Lean proof over all orderings + forced schedules through a hook + thread-count sweep",
+    "rule": "ring 2 (`exit`): 3 forced interleavings of {diff handler, walker error} x 4 output formats on the real binary (schedule hook) vs exec of the extracted operation lists. ring 3: exit status 2 under every forced schedule; --num-threads in {1,2,3,4,8,16} (thorough: 1..16) x {check, write} x repetitions on a tree with unformatted, formatted, unparseable files and a missing path: identical exit status, file contents and diff set.",
+    "trusted_base": [],
+    "assumptions": [],
 }
